@@ -7,6 +7,8 @@ import Mpir.Model.AliasMul
 import Mpir.Model.AliasGcdext
 import Mpir.Model.AliasPowm
 import Mpir.Model.AliasMpf
+import Mpir.Model.AliasMpf3
+import Mpir.Model.AliasMisc
 namespace Mpir.Ops.Alias2
 open Mpir Mpir.AliasMem
 
@@ -65,6 +67,30 @@ def handle : Handler
     match mpz_invert r x n s0 with
     | .error e => some [.err e]
     | .ok (ret, s) => (answer s0 (fun _ => false) (.ok s)).map fun l => .num (if ret then 1 else 0) :: l
+  | "alias_root", [.num root, .num u, .num _, .num nth, .num v0, .num v1, .num v2, .num v3] => do
+    let root ← idx root; let u ← idx u
+    if nth < 0 ∨ nth ≥ B then none else
+    let s0 := ofInts [v0, v1, v2, v3]
+    match mpz_root root u nth.toNat s0 with
+    | .error e => some [.err e]
+    | .ok (ret, s) => (answer s0 (fun _ => false) (.ok s)).map fun l => .num (if ret then 1 else 0) :: l
+  | "alias_remove", [.num d, .num src, .num f, .num _, .num v0, .num v1, .num v2, .num v3] => do
+    let d ← idx d; let src ← idx src; let f ← idx f
+    let s0 := ofInts [v0, v1, v2, v3]
+    match mpz_remove d src f s0 with
+    | .error e => some [.err e]
+    | .ok (ret, s) => (answer s0 (fun _ => false) (.ok s)).map fun l => .num ret :: l
+  | "alias_bin_ui", [.num r, .num n, .num _, .num k, .num v0, .num v1, .num v2, .num v3] => do
+    let r ← idx r; let n ← idx n
+    if k < 0 ∨ k > 200 then none else
+    let s0 := ofInts [v0, v1, v2, v3]
+    answer s0 (fun _ => false) (mpz_bin_ui r n k.toNat s0)
+  | "alias_ffloor", args => frun (fun r u _ _ => mpf_floor r u) args
+  | "alias_fceil", args => frun (fun r u _ _ => mpf_ceil r u) args
+  | "alias_ftrunc", args => frun (fun r u _ _ => mpf_trunc r u) args
+  | "alias_fmul_2exp", args => frun (fun r u _ e s => if e > 100000 then .error "args" else mpf_mul_2exp r u e s) args
+  | "alias_fdiv_2exp", args => frun (fun r u _ e s => if e > 100000 then .error "args" else mpf_div_2exp r u e s) args
+  | "alias_fui_div", args => frun (fun r _ v ui => mpf_ui_div r ui v) args
   | "alias_fdiv", args => frun (fun r u v _ => mpf_div r u v) args
   | "alias_fmul", args => frun (fun r u v _ => mpf_mul r u v) args
   | "alias_fsqrt", args => frun (fun r u _ _ => mpf_sqrt r u) args
